@@ -107,7 +107,7 @@ class Obligation:
 class Run:
     """One execution path."""
 
-    def __init__(self, world, prefix, timeout_ms=20000, feas_timeout_ms=3000):
+    def __init__(self, world, prefix, timeout_ms=20000, feas_timeout_ms=1500):
         self.w = world
         self.prefix = list(prefix)
         self.trace = []
@@ -126,6 +126,8 @@ class Run:
         self.inputs = {}            # name -> value (symbolic inputs of the target, for models)
         self.solver_secs = 0.0
         self.lemma_measure = None
+        self.feas_gave_up = 0
+        self.known = {}
         self.placeholders = []
         self.no_feas = False
         self.no_prove = False
@@ -142,6 +144,19 @@ class Run:
                 raise PathEnd('assume False')
             return
         self.pc.append(cond)
+        self.note_known(cond)
+
+    def note_known(self, cond):
+        c = z3.simplify(cond)
+        if z3.is_and(c):
+            for ch in c.children():
+                self.note_known(ch)
+            return
+        if z3.is_not(c):
+            self.known[c.arg(0).sexpr()] = False
+        else:
+            self.known[z3.Not(c).sexpr()] = False
+        self.known[c.sexpr()] = True
 
     def _solver(self, extra, timeout_ms):
         """A fresh solver over the path condition (no push/pop: the incremental mode of z3 was seen to
@@ -162,6 +177,10 @@ class Run:
         self.solver_secs += time.time() - t0
         if DEBUG_DUMP and time.time() - t0 > 1.0:
             sys.stderr.write('SLOW feasibility %.1fs %s: %s\n' % (time.time() - t0, r, str(cond)[:300]))
+        if r == z3.unknown:
+            # satisfiability of this path condition is beyond the budget (typically: a model of a
+            # recursive spec function is needed); further pruning queries on this path are pointless
+            self.feas_gave_up += 1
         return r != z3.unsat
 
     def choose(self, cond):
@@ -172,6 +191,11 @@ class Run:
             return True
         if z3.is_false(cond):
             return False
+        # a condition that is literally on the path already (or whose negation is) needs no solver and is
+        # not a decision point; the set of known literals evolves identically on re-execution
+        key = cond.sexpr()
+        if key in self.known:
+            return self.known[key]
         i = len(self.trace)
         if i < len(self.prefix):
             d = self.prefix[i]
@@ -181,8 +205,11 @@ class Run:
             d = True
             self.pending.append([x for x in self.trace] + [False])
         else:
-            can_t = self.feasible(cond)
-            can_f = self.feasible(z3.Not(cond))
+            if self.feas_gave_up >= 2:
+                can_t = can_f = True         # no pruning any more on this path (sound: more paths, not fewer)
+            else:
+                can_t = self.feasible(cond)
+                can_f = self.feasible(z3.Not(cond))
             if can_t and can_f:
                 d = True
                 self.pending.append([x for x in self.trace] + [False])
@@ -202,7 +229,7 @@ class Run:
         if isinstance(claim, bool):
             claim = z3.BoolVal(claim)
         t0 = time.time()
-        sol = self._solver(z3.Not(claim), self.timeout_ms)
+        sol = self._solver(z3.Not(claim), min(self.timeout_ms, 4000))
         if DEBUG_DUMP:
             with open(DEBUG_DUMP + '.prove', 'w') as fh:
                 fh.write(sol.to_smt2())
@@ -223,6 +250,36 @@ class Run:
             if DEBUG_DUMP:
                 with open(DEBUG_DUMP + '.unknown', 'w') as fh:
                     fh.write(sol.to_smt2())
+            # z3's search is unstable on some small queries (dropping any one redundant hypothesis makes
+            # them immediate).  Proving the claim from FEWER hypotheses is sound, so retry with the
+            # hypotheses in reverse order and with one hypothesis left out at a time (short budget each).
+            n = len(self.pc)
+            variants = [list(reversed(self.pc))]
+            for k in list(range(n - 1, max(n - 9, -1), -1)) + list(range(0, min(4, n))):
+                variants.append(self.pc[:k] + self.pc[k + 1:])
+            for hyps in variants:
+                s2 = z3.Solver()
+                s2.set('timeout', max(2000, self.timeout_ms // 8))
+                s2.add(hyps)
+                s2.add(z3.Not(claim))
+                if s2.check() == z3.unsat:
+                    status = 'proved'
+                    detail = 'proved from a subset / reordering of the hypotheses after a timeout'
+                    break
+            if status == 'unknown' and self.timeout_ms > 4000:
+                # last resort: the full budget on the original query
+                s3 = self._solver(z3.Not(claim), self.timeout_ms)
+                r3 = s3.check()
+                if r3 == z3.unsat:
+                    status = 'proved'
+                elif r3 == z3.sat:
+                    status = 'failed'
+                    try:
+                        model = s3.model()
+                    except z3.Z3Exception:
+                        model = None
+                else:
+                    detail = s3.reason_unknown()
         secs = time.time() - t0
         self.solver_secs += secs
         ob = Obligation(label, kind, status, model=self.extract_model(model) if model is not None else None,
